@@ -118,4 +118,23 @@ CLAIMS = {
                  "traversal of both operands by the same adaptor chain (most significant end first), partial_cmp = Some(cmp).",
         "note": TRUST + "Iterator::cmp and integer comparison are std; colex = numeric order uses C04 packing and C09 canonical form as hypotheses.",
     },
+    "C16": {
+        "technique": "macro/codec table agreement read from the proc-macro's MIR + rustc-evaluated statics of generated literals vs runtime packing + compile_fail witnesses with compiling twins",
+        "level": "Decides table agreement and exact alphabets of dna!/iupac! (all characters), the Err->compile-error and Ok->gen_seqarray flow, and - by translation validation of "
+                 "generated literals of lengths 0..200+ at all word boundaries - that the evaluated static (codec, N, W, words) equals the runtime packing; invalid literals are "
+                 "witnessed not to compile (23 cases with twins). kmer! is covered through its two components and K pinned by type.",
+        "note": TRUST + "Instance validation for gen_seqarray (quote!-generated tokens are not analysed symbolically); rustc const evaluation trusted.",
+    },
+    "C17": {
+        "technique": "translation validation of derive instances (generated enum declarations compiled under the extractor; derived tables vs declaration) + interval rule on the generator's narrow arithmetic + compile_fail witnesses",
+        "level": "For 4 in-tree and 24 (thorough: 64, both profiles) generated declarations the derived impl's tables folded from MIR equal the declaration exactly (BITS, codes, alts, "
+                 "display, refusal, unsafe agreement, items order); u8/u16 arithmetic in the derive is interval-checked overflow-free; malformed declarations are witnessed not to compile.",
+        "note": TRUST + "Instance validation: f32::log2/ceil exactness is covered at every power-of-two boundary up to 255 but not proved.",
+    },
+    "C18": {
+        "technique": "derive/feature wiring read from the generated Serialize/Deserialize MIR + Cargo feature graph",
+        "level": "Wiring only: derived impls exist for Seq and Kmer; the serializer emits each declared field once, by name, unconditionally; the deserializer recognises the same names, "
+                 "builds the struct from successive elements and errors (no default) on a missing one; feature serde enables serde derive and bitvec/serde.",
+        "note": TRUST + "That bitvec's and the integers' serde impls round-trip in bincode/JSON is trusted; equality after a round trip is not decided.",
+    },
 }
